@@ -13,6 +13,7 @@ type mfile struct {
 	data   []byte // len(data) == file size
 	alloc  []bool // alloc[i]: sector index i holds written data
 	hsData []bool // hsData[x]: the hole source reports byte x as data; len == current hole source length (<= size)
+	hsByte []byte // hsByte[x]: what the hole source itself holds at x; same length as hsData
 }
 
 // newMfile builds the model of a fresh file of the given size whose
@@ -22,10 +23,33 @@ func newMfile(ss int, size int64, hsContent []byte, hsIsData []bool) *mfile {
 	m := &mfile{ss: ss, data: make([]byte, size)}
 	copy(m.data, hsContent)
 	m.hsData = append([]bool(nil), hsIsData...)
+	m.hsByte = append([]byte(nil), hsContent...)
 	if int64(len(m.hsData)) > size {
 		m.hsData = m.hsData[:size]
 	}
+	if int64(len(m.hsByte)) > size {
+		m.hsByte = m.hsByte[:size]
+	}
 	return m
+}
+
+func (m *mfile) clone() *mfile {
+	return &mfile{
+		ss:     m.ss,
+		data:   append([]byte(nil), m.data...),
+		alloc:  append([]bool(nil), m.alloc...),
+		hsData: append([]bool(nil), m.hsData...),
+		hsByte: append([]byte(nil), m.hsByte...),
+	}
+}
+
+// holeSourceByte: what a read of byte x is served with when its sector
+// is a hole (null bytes past the end of the hole source).
+func (m *mfile) holeSourceByte(x int64) byte {
+	if x < int64(len(m.hsByte)) {
+		return m.hsByte[x]
+	}
+	return 0
 }
 
 func (m *mfile) size() int64 { return int64(len(m.data)) }
@@ -93,6 +117,9 @@ func (m *mfile) truncate(size int64) {
 	}
 	if int64(len(m.hsData)) > size {
 		m.hsData = m.hsData[:size]
+	}
+	if int64(len(m.hsByte)) > size {
+		m.hsByte = m.hsByte[:size]
 	}
 }
 
